@@ -81,7 +81,8 @@ func (m *Mutex) Unlock() {
 		return
 	}
 	if !m.locked {
-		panic("sync: unlock of unlocked mutex")
+		s.fatal("sync: unlock of unlocked mutex")
+		return
 	}
 	m.locked = false
 	m.owner = nil
@@ -149,7 +150,8 @@ func (m *RWMutex) Unlock() {
 		return
 	}
 	if !m.writer {
-		panic("sync: Unlock of unlocked RWMutex")
+		s.fatal("sync: Unlock of unlocked RWMutex")
+		return
 	}
 	raceRelease(unsafe.Pointer(&m.writer))
 	m.writer = false
@@ -197,7 +199,8 @@ func (m *RWMutex) RUnlock() {
 		return
 	}
 	if m.readers <= 0 {
-		panic("sync: RUnlock of unlocked RWMutex")
+		s.fatal("sync: RUnlock of unlocked RWMutex")
+		return
 	}
 	raceReleaseMerge(unsafe.Pointer(&m.readers))
 	m.readers--
@@ -262,6 +265,7 @@ func (w *WaitGroup) Add(d int) {
 	}
 	w.n += d
 	if w.n < 0 {
+		// (this one is an ordinary panic in package sync)
 		panic("sync: negative WaitGroup counter")
 	}
 }
